@@ -8,15 +8,15 @@ FILES = ["cmd/zoekt-merge-index/main.go", "index/merge.go"]
 SPEC = dict(
     level="proof",
     harness=dict(pkg_dir="cmd/zoekt-merge-index", run="TestVerifC35$", files=["cmd/zoekt-merge-index/zz_verif_c35_test.go"],
-                 n_quick=260, n_thorough=2400),
+                 n_quick=360, n_thorough=3000),
     runner=dict(imports=["From ZV Require Import Lib.Base Model.MergeDriver."], case_type="c35case",
                 mismatch_fn="c35_mismatches", shard=150),
     rule="generated directories of REAL shards (1-3 simple inputs / a 1-3 repo compound, optional bystander shard, compound "
          "input with .meta tombstones, missing / garbage / directory inputs, duplicate names, a directory squatting on the "
          "destination or its .tmp name; an ORPHAN sidecar <dst>.zoekt.meta (real JSON of the repository metadata with a "
          "tombstone / another priority, garbage, or a directory) waiting at a destination name of Explode / merge, and a "
-         "destination name taken by a shard with a sidecar: 4 (quick) / 9 (thorough) such scenarios open every run; a repository "
-         "tombstoned in a compound alive in a newer simple shard beside it) run through the real merge() / index.Explode() built from the working tree with its "
+         "destination name taken by a shard with a sidecar: a repository "
+         "tombstoned in a compound alive in a newer simple shard beside it: 6 (quick) / 11 (thorough) forced scenarios of these classes open every run) run through the real merge() / index.Explode() built from the working tree with its "
          "os.* call sites routed through the zzfs shim (translator/fsinstrument, via -overlay): no fault; every single "
          "operation of the observed trace failing (+ temp-file write failing); killed (freeze) before every mutating "
          "operation without and (sampled in quick) with a preceding fault. Observed: error/path result, existence of every "
